@@ -290,6 +290,8 @@ class Engine:
                 avail.append((k, w))
             elif k == "pg_delete" and any(o.pgs for o in objs):
                 avail.append((k, w))
+            elif k == "foreign_pg" and len(objs) >= 2 and any(o.pgs for o in objs):
+                avail.append((k, w))
             elif k == "remove_protected" and (objs or data):
                 avail.append((k, w))
             elif k == "remove_partial" and data:
@@ -401,12 +403,17 @@ class Engine:
         self.rec.see("vertex-edits:" + how)
 
     def op_remove_many(self, op):
-        """One parent.remove_children call with several children, of different kinds where possible."""
-        parents = [g for g in self.model.of_kind("group") + [self.model.nodes[self.model.root]] if len([c for c in self.model.children(g.uid) if self.model.nodes[c].dkind != "auto"]) >= 2]
+        """One parent.remove_children call with several children, of different kinds where possible; sometimes the call is
+        `parent.remove_children(parent.children)` -- everything under it, handing over the list the getter returned."""
+        def plain_kids(n):
+            return [c for c in self.model.children(n.uid) if self.model.nodes[c].dkind != "auto"]
+
+        parents = [g for g in self.model.of_kind("group", "object") + [self.model.nodes[self.model.root]] if len(plain_kids(g)) >= 2]
         if not parents:
             raise ExpectedRefusal("no parent with two children")
         g = self.rng.choice(parents)
-        kids = [c for c in self.model.children(g.uid) if self.model.nodes[c].dkind != "auto"]
+        kids = plain_kids(g)
+        everything = g.uid != self.model.root and len(kids) == len(self.model.children(g.uid)) and self.rng.random() < (0.6 if g.kind == "object" else 0.3)
         by_kind = {}
         for c in kids:
             by_kind.setdefault(self.model.nodes[c].kind, []).append(c)
@@ -414,32 +421,66 @@ class Engine:
         if len(chosen) < 2:
             chosen = self.rng.sample(kids, 2)
         self.rng.shuffle(chosen)
+        if everything:
+            chosen = list(kids)
         victims = []
         for c in chosen:
             sub = self.model.subtree(c)
             if any(not self.model.nodes[v].flags.get("allow_delete", True) for v in sub):
                 raise ExpectedRefusal("protected member")
             victims += sub
-        op.update(cls=g.cls, target=g.uid, via="parent", removed_children=len(chosen), kinds=sorted({self.model.nodes[c].kind for c in chosen}), victims=len(victims))
+        op.update(cls=g.cls, target=g.uid, via="parent", removed_children=len(chosen), kinds=sorted({self.model.nodes[c].kind for c in chosen}), victims=len(victims), idiom="children-list" if everything else "new-list")
         op["op"] = "remove"
         fp = self.last_footprint
         fp["delete"].update(path_of(self.model.nodes[v]) for v in victims)
         fp["links"].add(path_of(g) if g.uid != self.model.root else "Groups/" + br(g.uid))
         fp["any_type"] = True
+        if g.kind == "object":
+            fp["content"].add("Objects/" + br(g.uid))
         ents = [self.ent(c) for c in chosen]
         parent = self.ent(g.uid)
         for v in victims:
             self.refs.pop(v, None)
-        parent.remove_children(ents)
+        if everything:
+            parent.remove_children(parent.children)
+            self.rec.see("remove-children-of-own-list:" + g.kind)
+        else:
+            parent.remove_children(ents)
         del ents
         for v in victims:
             vn = self.model.nodes.pop(v)
             self.model.removed.add(v)
             self.pending_victims.add(path_of(vn))
             self.parent_removed.add(path_of(vn))
+        if g.kind == "object":
+            if everything:
+                g.pgs.clear()
+            for pgname in list(g.pgs):
+                if any(u in victims for u in g.pgs[pgname]):
+                    g.pgs[pgname] = [u for u in g.pgs[pgname] if u not in victims]
+                    if not g.pgs[pgname]:
+                        del g.pgs[pgname]
         op["removed"] = victims
         op["target"] = chosen[0]
         self.rec.see("multi-child-removals:" + "+".join(op["kinds"]))
+
+    def op_foreign_pg(self, op):
+        """Hand a property group to `remove_children` of an object that does not own it: whatever the answer (nothing happens,
+        or a refusal), the owner keeps its group -- live and in the file."""
+        owners = [o for o in self.model.of_kind("object") if o.pgs]
+        others = self.model.of_kind("object")
+        if not owners or len(others) < 2:
+            raise ExpectedRefusal("no foreign property group")
+        a = self.rng.choice(owners)
+        b = self.rng.choice([o for o in others if o.uid != a.uid])
+        name = self.rng.choice(sorted(a.pgs))
+        op.update(cls=b.cls, target=b.uid, owner=a.uid, pg=name)
+        pg = self.ent(a.uid).get_property_group(name)[0]
+        try:
+            self.ent(b.uid).remove_children([pg])
+        except (ValueError, TypeError, AttributeError, KeyError) as exc:
+            self.rec.see("foreign-pg-refused:" + type(exc).__name__)
+        self.rec.see("foreign-pg-removals")
 
     def pick_any(self, kinds=("object", "group", "data")):
         if self.force_kinds:
@@ -1001,6 +1042,7 @@ DEFAULT_WEIGHTS = {
     "remove_partial": 0.0,
     "edit_vertices": 0.8,
     "remove_many": 0.5,
+    "foreign_pg": 0.3,
     "copy_out": 0.0,
 }
 
